@@ -69,6 +69,7 @@ def run(ctx):
   ctx.rule('R3.4', 'calculate_sat: the sat of a new inscription is start + input_offset - (sum of the earlier range lengths) of the first range with sum + size > input_offset; the running sum grows by end - start per range')
   ctx.rule('R3.5', 'update_inscription_location: Burned is set exactly under op_return (new and carried inscriptions), Lost exactly when the new outpoint is the null outpoint, Unbound exactly under the unbound flag; '
            'an unbound inscription is stored at (unbound outpoint, running unbound counter) and the counter grows by one; every other inscription at the satpoint it was given')
+  ctx.rule('R3.6', 'index_inscriptions: a new inscription is unbound if the value of its input is 0 or its envelope carries an unrecognized even field — the envelope flag itself, independent of which curse the ladder selected')
   _r3_4(ctx, F)
   _r3_5(ctx, F)
   b = ctx.body('R3.1', II)
@@ -164,6 +165,26 @@ def run(ctx):
     cl = [cb for cb in F.closures_of(b.n) if _lt_upvar(cb, 'total_output_value')]
     ctx.ob('R3.1', b.n, 'a pointer moves the inscription only if pointer < total_output_value', okf and len(cl) >= 1, f'{[c.name for c in fo]}', where(b, uo.line))
 
+  # unbound flag of a new inscription (R3.6)
+  og = [x for x in agg_sites(b, r'inscription_updater::Origin$') if x[2]['rv'].get('variant') == 'New']
+  if ctx.anchor('R3.6', 'Origin::New literal', len(og) == 1, b.n):
+    ostm = og[0][2]
+    ofs = ostm['rv'].get('fields') or []
+    uop = ostm['rv']['ops'][ofs.index('unbound')]
+    uo_ = origins(b, uop)
+    direct = [o for o in uo_ if o.kind == 'call' and o.call.is_('re:Peekable.*::peek$') and tuple(o.fields)[-2:] == ('payload', 'unrecognized_even_field')]
+    ctx.ob('R3.6', b.n, 'unbound includes the envelope\'s unrecognized_even_field flag itself (not only what the curse ladder picked)', len(direct) == 1, f'{[repr(o) for o in uo_]}', where(b, ostm['l']))
+    from ..guards import all_guards, expand
+    from ..intervals import fmt_desc
+    ul = (uop.get('c') or uop.get('m') or {}).get('l')
+    zero = False
+    for d in b.defs().get(ul, []):
+      if d.get('kind') == 'assign' and d.get('bb') is not None and (d.get('rv') or {}).get('k') == 'use' and ((d['rv'].get('o') or {}).get('k') or {}).get('v') is True:
+        for dsc, truth in _short_circuit_sources(b, d['bb']):
+          if truth is True and dsc.startswith('Eq(') and 'total_value' in dsc and dsc.endswith(',0)'):
+            zero = True
+    ctx.ob('R3.6', b.n, 'unbound is true whenever the input entry\'s total_value() == 0', zero, '', where(b, ostm['l']))
+
   # ------------------------------------------------------------------ R3.2
   pk = [c for c in b.calls if c.is_('re:Peekable.*::peek$')]
   sps = agg_sites(b, SATPOINT)
@@ -235,6 +256,20 @@ def run(ctx):
       if isinstance(x, tuple) and x[0] == 'call':
         val_syms.add(x)
   ctx.ob('R3.2', b.n, 'the value added is that of the output being visited', val_syms == {('call', hout)}, f'{val_syms}', where(b, stm['l']))
+  # both loops walk the whole transaction: tx.output here, tx.input above — not a conditional or partial view of them (seeded C03-a)
+  for hh, fld, rid in ((hout, 'output', 'R3.2'), (ho, 'input', 'R3.1')):
+    nxs = [c for c in b.calls if c.bb == hh and c.is_('re:Enumerate as std::iter::Iterator>::next$')]
+    roots = set()
+    for c in nxs:
+      op_ = c.args[0]
+      for _ in range(10):
+        os_ = origins(b, op_, passthrough=())
+        cs = [o for o in os_ if o.kind == 'call']
+        if len(cs) != 1 or len(os_) != 1 or not cs[0].call.args:
+          roots |= {repr(o) for o in os_}
+          break
+        op_ = cs[0].call.args[0]
+    ctx.ob(rid, b.n, f'the {fld} loop walks exactly tx.{fld}', roots == {f'param:tx.{fld}'}, f'{sorted(roots)}', where(b, stm['l']))
   # vout / txid
   oi = _field(stm, 'outpoint')
   txid_p = [l for l in range(1, b.argc + 1) if b.local_name(l) == 'txid']
@@ -456,6 +491,33 @@ def _r3_5(ctx, F):
       else:
         kinds.add(repr(o))
     ctx.ob('R3.5', b.n, 'the stored offset is new_satpoint.offset, or the unbound counter for an unbound inscription', kinds == {'given', 'unbound'}, f'{sorted(kinds)}', where(b, c.line))
+
+
+def _short_circuit_sources(b, bb):
+  """the tests whose edge leads straight (through gotos only) into block bb: [(condition description, truth of that edge)]"""
+  from ..facts import describe_cond
+  from ..intervals import fmt_desc
+  out = []
+  preds = b.preds()
+  seen = set()
+  work = [(p, bb) for p in preds.get(bb, [])]
+  while work:
+    p, child = work.pop()
+    if (p, child) in seen:
+      continue
+    seen.add((p, child))
+    t = b.blocks[p]['t']
+    if t['k'] == 'switch':
+      for lab, tgt in b.switch_edges(p):
+        if tgt == child:
+          vals = [v for v, _ in t['vals']]
+          truth = (lab == 'otherwise' and vals == [0]) or (lab != 'otherwise' and bool(lab))
+          out.append((fmt_desc(describe_cond(b, t['d'])), truth))
+    elif t['k'] in ('goto',) and not b.blocks[p]['s']:
+      work += [(q, p) for q in preds.get(p, [])]
+    elif t['k'] == 'goto':
+      work += [(q, p) for q in preds.get(p, [])]
+  return out
 
 
 def _before_in_iteration(b, an, h, x, y):
